@@ -232,7 +232,11 @@ func compareRoundTrip(a *App, re *sysl.Application, x string, g rtGate, s *sink,
 				label := strings.TrimSpace(parts[0])
 				typ := ""
 				if len(parts) == 2 {
-					typ = strings.TrimSpace(parts[1])
+					typ = parts[1]
+					if k := strings.Index(typ, "["); k >= 0 { // the importers write [mediatype=…] into the payload
+						typ = typ[:k]
+					}
+					typ = strings.TrimSpace(typ)
 				}
 				if old, dup := rets[label]; !dup || old == "" {
 					rets[label] = typ
